@@ -120,28 +120,30 @@ def build_unit(u, wd, defs):
     b = os.path.join(wd, "b.gb")
     if u.get("extract"):
         # mechanical extraction (run on every build, from the current working tree): the preprocessor
-        # lines and the verbatim text of the named top-level functions of one file; everything else
-        # of that file is dropped.  A function that is not found aborts the unit (undecided).
-        ex = u["extract"]
-        src = open(os.path.join(REPO, ex["file"])).read()
-        parts = ["/* GENERATED on every run by run.py from %s: preprocessor lines + verbatim text of %s */" % (ex["file"], ", ".join(ex["functions"]))]
-        parts += [l for l in src.splitlines() if l.startswith("#")]
-        for rx in ex.get("lines", []):   # verbatim declaration lines (file-scope variables the functions use); each pattern must fire
-            hit = [l for l in src.splitlines() if re.match(rx, l)]
-            if not hit:
-                raise Undecided("extraction: no line matches %s in %s" % (rx, ex["file"]))
-            parts += hit
-        if ex.get("prototypes"):
-            # a prototype for every other static function of the file (their bodies are dropped; the unit's spec header
-            # defines the ones it gives a meaning to, the rest have no body: CBMC treats their results as arbitrary)
-            for m in re.finditer(r"^(static [A-Za-z_][\w \*]*?\b(\w+)\([^;{]*\))\n\{\n", src, re.M):
-                if m.group(2) not in ex["functions"]:
-                    parts.append(m.group(1) + ";")
-        for fn in ex["functions"]:
-            m = re.search(r"^(?:static )?[A-Za-z_][\w \*]*?\b" + re.escape(fn) + r"\([^;{]*\)\n\{\n.*?^\}\n", src, re.M | re.S)
-            if not m:
-                raise Undecided("extraction: function %s not found in %s" % (fn, ex["file"]))
-            parts.append(m.group(0))
+        # lines and the verbatim text of the named top-level functions of one file (or of several files, one
+        # entry each); everything else of those files is dropped.  A function that is not found aborts the unit.
+        entries = u["extract"] if isinstance(u["extract"], list) else [u["extract"]]
+        parts = []
+        for ex in entries:
+            src = open(os.path.join(REPO, ex["file"])).read()
+            parts.append("/* GENERATED on every run by run.py from %s: preprocessor lines + verbatim text of %s */" % (ex["file"], ", ".join(ex["functions"])))
+            parts += [l for l in src.splitlines() if l.startswith("#") and not (len(entries) > 1 and l.startswith("#define") and any(l.split()[1].split("(")[0] == m for m in ("MIN", "MAX", "LEN")) and ex is not entries[0])]
+            for rx in ex.get("lines", []):   # verbatim declaration lines (file-scope variables the functions use); each pattern must fire
+                hit = [l for l in src.splitlines() if re.match(rx, l)]
+                if not hit:
+                    raise Undecided("extraction: no line matches %s in %s" % (rx, ex["file"]))
+                parts += hit
+            if ex.get("prototypes"):
+                # a prototype for every other static function of the file (their bodies are dropped; the unit's spec header
+                # defines the ones it gives a meaning to, the rest have no body: CBMC treats their results as arbitrary)
+                for m in re.finditer(r"^(static [A-Za-z_][\w \*]*?\b(\w+)\([^;{]*\))\n\{\n", src, re.M):
+                    if m.group(2) not in ex["functions"]:
+                        parts.append(m.group(1) + ";")
+            for fn in ex["functions"]:
+                m = re.search(r"^(?:static )?[A-Za-z_][\w \*]*?\b" + re.escape(fn) + r"\([^;{]*\)\n\{\n.*?^\}\n", src, re.M | re.S)
+                if not m:
+                    raise Undecided("extraction: function %s not found in %s" % (fn, ex["file"]))
+                parts.append(m.group(0))
         gen = os.path.join(wd, "extract.c")
         open(gen, "w").write("\n".join(parts) + "\n")
         defs = list(defs) + ['EXTRACT_FILE="%s"' % gen]
